@@ -96,7 +96,7 @@ pub fn gen(r: &mut Rng) -> Value {
     let seq: Vec<String> = (0..n).map(|_| r.pick(&calls).to_string()).collect();
     // caller variables whose names are close to the names the called command uses internally (same textual
     // prefix without the `::` delimiter, the bare scope name, numbered names, names used inside script bodies)
-    let shapes = ["is_empty", "is_array", "contains", "equals", "not", "scope::@", "scope::@_x::v", "scope::@x", "scope::@:", "@", "@::v", "scope::", "scope", "1", "2", "argument", "array", "result", "scope::@ ::v"];
+    let shapes = ["pre_scope::@::v", "xscope::@::", "is_empty", "is_array", "contains", "equals", "not", "scope::@", "scope::@_x::v", "scope::@x", "scope::@:", "@", "@::v", "scope::", "scope", "1", "2", "argument", "array", "result", "scope::@ ::v"];
     let mut extra = vec![];
     for _ in 0..r.below(4) {
         let cmd = r.pick(&seq).split(' ').next().unwrap_or("x").to_string();
